@@ -318,5 +318,89 @@ def run(F, tier, res):
                 res.violate('SHIFT', 'fn=%s' % p, 'the offset applied to the rg --json submatch coordinates is not measured on the tab-expanded text (no length / width / position taken from '
                             'the expansion result flows into it): the shift and the expansion can disagree, highlighting the wrong span', where=F.bodies[p]['mir']['span']['at'])
     res.rule('C16.SHIFT', ns, 1, 'writes to GrepLine.submatches next to tab expansion: the offset depends on a measurement of the expanded text', discharged=oks)
+    # ---------- TEXT-INTACT: rg --json reports submatch offsets into the line text it sends; before the text becomes GrepLine.code only
+    # its line terminator may be removed (one "\n", then one "\r"): anything else (trimming blanks, cutting, replacing) leaves the
+    # offsets pointing past the end or at the wrong bytes
+    nt = okt = 0
+    NL = {('char', '\n'), ('char', '\r'), ('str', '\n'), ('str', '\r'), ('str', '\r\n')}
+    for p in sorted(F.fn_bodies):
+        if p.startswith('<') or 'ripgrep_json' not in p:
+            continue
+        blocks = F.blocks(p)
+        defs = F.local_defs(p)
+        code_ops = []
+        for blk in blocks:
+            for st in blk['s']:
+                if st[0] == 'assign' and st[2][0] == 'agg' and st[2][1][0] == 'adt' and st[2][1][1].endswith('::GrepLine') and 'code' in st[2][1][4]:
+                    code_ops.append(st[2][2][st[2][1][4].index('code')])
+        if not code_ops:
+            continue
+        CODE = set()
+        work = [(o.get('move') or o.get('copy') or {}).get('l') for o in code_ops]
+        while work:
+            l = work.pop()
+            if l is None or l in CODE:
+                continue
+            CODE.add(l)
+            for (bb, kind, payload) in defs.get(l, []):
+                if kind == 'call' and callee_of(payload).endswith(('::from', '::into', '::into_owned', '::to_string', '::to_owned', '::clone')):
+                    work += [(a.get('move') or a.get('copy') or {}).get('l') for a in payload['args'][:1]]
+                elif kind == 'assign' and payload[0] in ('use', 'cast'):
+                    o = payload[1] if payload[0] == 'use' else payload[2]
+                    q2 = (o.get('move') or o.get('copy')) if isinstance(o, dict) else None
+                    if q2 and not any(pr[0] == 'field' for pr in q2['p']):
+                        work.append(q2['l'])
+
+        def on_code(op, depth=0):
+            q2 = (op.get('move') or op.get('copy')) if isinstance(op, dict) else None
+            if not q2 or depth > 5:
+                return False
+            if q2['l'] in CODE:
+                return True
+            for (bb, kind, payload) in defs.get(q2['l'], []):
+                if kind == 'assign' and payload[0] in ('ref', 'rawptr'):
+                    if payload[2]['l'] in CODE or on_code({'copy': {'l': payload[2]['l'], 'p': []}}, depth + 1):
+                        return True
+                elif kind == 'assign' and payload[0] in ('use', 'copyderef'):
+                    if on_code(payload[1] if payload[0] == 'use' else {'copy': payload[1]}, depth + 1):
+                        return True
+                elif kind == 'call' and callee_of(payload).endswith(('::deref', '::deref_mut', '::as_str', '::as_mut_str', '::as_ref', '::borrow')):
+                    if on_code(payload['args'][0], depth + 1):
+                        return True
+            return False
+        for i, c in F.calls(p):
+            r = callee_of(c)
+            if not c['args'] or not on_code(c['args'][0]):
+                continue
+            lits = {v for a in c['args'][1:] for v in F.operand_literals(p, a)}
+            verdict = None
+            if r.endswith(('::trim', '::trim_end', '::trim_start', '::trim_ascii', '::trim_ascii_end', '::trim_ascii_start', '::replace', '::replacen', '::retain',
+                           '::drain', '::replace_range', '::split_off', '::clear', '::remove', '::trim_matches', '::trim_start_matches', '::strip_prefix')):
+                verdict = 'removes more than the line terminator (%s)' % r.split('::')[-1]
+            elif r.endswith(('::trim_end_matches', '::strip_suffix')):
+                verdict = None if (lits and lits <= NL) else 'strips something other than "\\n" / "\\r" (%s)' % r.split('::')[-1]
+                nt += 1
+            elif r.endswith(('String::truncate', 'String::pop')):
+                nt += 1
+                g = Ru.guarded_by(F, p, i, lambda rs: any(x[0] == 'call' and x[1].endswith('::ends_with') and
+                                                          {v for a in x[4]['args'][1:] for v in F.operand_literals(p, a)} & NL for x in rs))
+                if not g:
+                    verdict = 'shortens the text without a dominating ends_with("\\n") / ends_with("\\r") test (%s)' % r.split('::')[-1]
+                elif r.endswith('truncate'):
+                    rs = F.trace(p, c['args'][1])
+                    l2 = [v[1] for v in F.operand_literals(p, c['args'][1]) if v[0] == 'int']
+                    if not (any(x[0] == 'binop' and x[1].startswith('Sub') for x in rs) and any(x[0] == 'call' and x[1].endswith('::len') for x in rs) and l2 and max(l2) <= 2
+                            and not any(x[0] == 'call' and not x[1].endswith('::len') for x in rs)):
+                        verdict = 'cuts the text at something other than len() - 1 (truncate)'
+            else:
+                continue
+            if verdict:
+                if not r.endswith(('String::truncate', 'String::pop', '::trim_end_matches', '::strip_suffix')):
+                    nt += 1
+                res.violate('TEXT-INTACT', 'fn=%s;callee=%s' % (p, r.split('::')[-1]), 'the text of an rg --json line is changed before it becomes the line of code: it %s, but the '
+                            'submatch offsets that rg reported refer to the text as sent' % verdict, where=F.span_of_call(c))
+            else:
+                okt += 1
+    res.rule('C16.TEXT-INTACT', nt, 1, 'mutations of the rg --json line text before it becomes GrepLine.code: only the line terminator is removed', discharged=okt)
     res.distinct.update(r['rule'] for r in res.rules)
     return res
